@@ -13,7 +13,7 @@ NEv == Len(T.ev)
 Ev  == T.ev[l]
 TInit == /\ tid \in 1 .. Len(Batch) /\ l = 1 /\ members = <<>>
          /\ copyFlag = Batch[tid].copy /\ trainable = Batch[tid].trainable
-         /\ orig = Pre /\ inner = "none" /\ aliased = FALSE /\ fitted = FALSE
+         /\ orig = Pre /\ inner = "none" /\ aliased = FALSE /\ fitted = FALSE /\ last = Pre
 Go == l' = l + 1 /\ UNCHANGED tid
 Is(a) == l <= NEv /\ Ev.a = a
 \* ---- learner / stacking
@@ -34,7 +34,10 @@ TWTransform == /\ Is("transform") /\ T.kind = "wrap" /\ members # <<>>
                /\ Require(Ev.two_d, T.id, "OutputIs2D", l, <<>>)
                /\ UNCHANGED <<vars, members>> /\ Go
 \* ---- transfer
-RowsOf(sig) == IF sig = Pre THEN T.pre_rows ELSE T.rows
+RowsOf(sig) == IF sig = Pre THEN T.pre_rows ELSE IF sig = "E" THEN T.e_rows ELSE T.rows
+YsOf(sig) == IF sig = Pre THEN T.pre_ys ELSE IF sig = "E" THEN T.e_ys ELSE T.ys
+\* the caller retrains ITS estimator on the data set E between two fits of the wrapper
+TTRetrain == /\ Is("retrain") /\ T.kind = "transfer" /\ Retrain("E") /\ UNCHANGED members /\ Go
 TTFit == /\ Is("fit") /\ T.kind = "transfer"
          /\ Fit("D")
          /\ Require(Ev.inner_rows = RowsOf(inner'), T.id, IF trainable THEN "TrainsLikeDirect" ELSE "Frozen", l,
@@ -44,13 +47,13 @@ TTFit == /\ Is("fit") /\ T.kind = "transfer"
          /\ Require(Ev.same_object = ~copyFlag, T.id, "CopyIffAsked", l, [same_object |-> Ev.same_object])
          /\ UNCHANGED members /\ Go
 TTTransform == /\ Is("transform") /\ T.kind = "transfer" /\ fitted
-               /\ LET ys == IF inner = Pre THEN T.pre_ys ELSE T.ys IN
+               /\ LET ys == YsOf(inner) IN
                   Require(Ev.out = RegOut(ys, Ev.x), T.id, "Transparent", l, [x |-> Ev.x, got |-> Ev.out, want |-> RegOut(ys, Ev.x)])
-               /\ Require(Ev.orig_out = RegOut(IF orig = Pre THEN T.pre_ys ELSE T.ys, Ev.x), T.id,
+               /\ Require(Ev.orig_out = RegOut(YsOf(orig), Ev.x), T.id,
                           IF copyFlag THEN "OriginalUntouched" ELSE "Frozen", l, [x |-> Ev.x, got |-> Ev.orig_out])
                /\ UNCHANGED <<vars, members>> /\ Go
 TRaised == Is("raised") /\ Failed(T.id, "CallSucceeds", l, [err |-> Ev.err]) /\ UNCHANGED <<vars, members>> /\ Go
 TDone == /\ l = NEv + 1 /\ Accepted(T.id) /\ l' = NEv + 2 /\ UNCHANGED <<vars, members, tid>>
-TNext == l >= 1 /\ (TWFit \/ TWTransform \/ TTFit \/ TTTransform \/ TRaised \/ TDone)
+TNext == l >= 1 /\ (TWFit \/ TWTransform \/ TTFit \/ TTRetrain \/ TTTransform \/ TRaised \/ TDone)
 TSpec == TInit /\ [][TNext]_<<vars, members, tid, l>>
 =============================================================================
